@@ -1673,10 +1673,12 @@ def oracle_seq(sc, case):
     return None
 
 
-def gen_seq(ctx, full=False):
+def gen_seq(ctx, full=False, search=False):
     rng = ctx.rng
     out = []
-    maxlen = 3
+    # the quick search on an unchanged tree repeats only the shorter sequences (the correspondence has just run all
+    # of them up to 3 steps); with the full budget it runs everything again
+    maxlen = 2 if (search and ctx.quick and not full) else 3
     for n in range(1, maxlen + 1):
         for steps in itertools.product(SEQ_STEPS, repeat=n):
             if not any(x[0] in 'WEX' for x in steps):
@@ -1936,7 +1938,7 @@ def gen_search(ctx, full):
     cases += [c for c, _ in gen_fs(ctx)]
     cases += gen_tempfile(ctx)
     cases += [c for c, _ in gen_tmpw(ctx)]
-    cases += [c for c, _ in gen_seq(ctx, full)]
+    cases += [c for c, _ in gen_seq(ctx, full, search=True)]
     # path argument types for the reading helpers
     for ptype in PTYPES[1:]:
         for cs in (1, 7, 'D'):
